@@ -1,7 +1,7 @@
 (** C45 property theorems: for EVERY world (which names are modules, what attribute lookup yields), EVERY policy
     and EVERY s-expression, about the ghost log and result of the unjelly dispatcher (coq/C45/Model.v). *)
 From Coq Require Import List NArith Bool.
-From C45 Require Import Model Proofs.
+From C45 Require Import Model Proofs Graph GraphProofs.
 Import ListNotations.
 
 (** no class is instantiated unless the policy allows that class (by identity) *)
@@ -48,3 +48,43 @@ Proof.
   apply in_map_iff. exists (EImportTrial [1%N; 2%N] [1%N; 2%N]). split; [reflexivity|exact Hin].
 Qed.
 Print Assumptions unjelly_only_resolves_allowed_refuted.
+
+(** ------------------------------------------------------------------------------------------------------
+    Second half of the property: jelly then unjelly preserves a graph of allowed objects, including shared and
+    cyclic references (coq/C45/Graph.v: [jel]/[post] = _Jellier with its reference numbering, [unj] = _Unjellier
+    with the references table and the NotKnown placeholders of twisted.persisted.crefutil).
+
+    Full statement (FALSE of the current code, see the two _refuted theorems): the conclusion below for EVERY
+    heap.  Proved: for every heap in which no tuple lies on a cycle, every root, every amount of sharing and
+    every cycle through lists, dicts and instances: the objects the jellier starts, in order (V), are exactly
+    the objects unjelly builds, in order, slot for slot (an isomorphism that preserves identity: object v of
+    the source is object [index_of v V] of the result), no placeholder is left, and V is closed under
+    following references. *)
+Theorem unjelly_jelly_preserves_graph_partial : forall h fuel root V K t,
+  tuples_acyclic h -> jel fuel h [] [] root = Some (V, K, t) ->
+  exists st, unj (post K t) ust0 = ROk (st, ren V root)
+    /\ length (uh st) = length V /\ NoDup V /\ ut st = []
+    /\ (forall v, root = RNode v -> In v V)
+    /\ (forall i v, nth_error V i = Some v ->
+          exists n, nth_error h v = Some n /\ nth_error (uh st) i = Some (ren_node V n)
+                    /\ forall key w, In (key, RNode w) (snd n) -> In w V).
+Proof. exact roundtrip_lemma. Qed.
+Print Assumptions unjelly_jelly_preserves_graph_partial.
+
+(** a cycle through a tuple that is also referenced from inside itself: a _Tuple placeholder stays in the result *)
+Theorem unjelly_jelly_preserves_graph_refuted_placeholder :
+  exists h s st, ~ tuples_acyclic h /\ jelly 100 h (RNode 0) = Some s /\ unj s ust0 = ROk (st, TNode 0)
+    /\ nth_error (uh st) 2 = Some (KInst 1%N, [(1%N, TPend (PT 0) false)]).
+Proof.
+  destruct bad1_placeholder_left as (s & st & H1 & H2 & H3).
+  exists bad_heap1, s, st. split; [exact bad1_tuple_on_cycle|]. split; [exact H1|]. split; [exact H2|exact H3].
+Qed.
+Print Assumptions unjelly_jelly_preserves_graph_refuted_placeholder.
+
+(** a resolved _Tuple placeholder left in the references table: dereferencing it raises AssertionError *)
+Theorem unjelly_jelly_preserves_graph_refuted_assert :
+  exists h s, ~ tuples_acyclic h /\ jelly 100 h (RNode 0) = Some s /\ unj s ust0 = RAssert.
+Proof.
+  destruct bad2_asserts as (s & H1 & H2). exists bad_heap2, s. split; [exact bad2_tuple_on_cycle|]. split; assumption.
+Qed.
+Print Assumptions unjelly_jelly_preserves_graph_refuted_assert.
